@@ -149,7 +149,7 @@ def run(chk, repo, tier):
     want_spec = {0: ('ijk,i->jk', 1), 1: ('ijk,i->jk', 1), 2: ('ijk,jk->jk', 2), 3: ('ijk,ijk->jk', 3)}
     for nd in (0, 1, 2, 3):
         facts = {nf.attr(gain, 'ndim').single_atom(): C(nd)}
-        _, paths, _ = analyse(repo, fa, facts=facts, config={'dtype': NONE, 'saturation_capacity': NONE})
+        _, paths, _ = analyse(repo, fa, facts=facts, config={'dtype': NONE, 'saturation_capacity': NONE}, literal_tables=True)
         rets = returns(paths)
         if len(rets) != 1:
             raise AnalysisError(f'adc: gain.ndim={nd} does not fold to one path ({len(rets)})')
@@ -160,7 +160,7 @@ def run(chk, repo, tier):
         if nd == 0 and es:
             g = es[0][2][2]
             ga = g.single_atom() if isinstance(g, Poly) else None
-            lifted = ga is not None and ga[0] == 'idx' and isinstance(ga[2], Tup) and ga[2].items[-1] == NONE
+            lifted = ga is not None and ga[0] == 'idx' and ((isinstance(ga[2], Tup) and ga[2].items[-1] == NONE) or ga[2] == NONE)
         chk.ob('C16-f', 'T-einsum', fa.key, f'gain.ndim={nd}: gain operand has {want_spec[nd][1]} subscript(s)',
                ok and lifted, f'einsum {spec_of(es[0])!r}' if es else 'no einsum', fa.loc(p.node))
         if nd == 1:
@@ -185,7 +185,7 @@ def run(chk, repo, tier):
     cap = S('saturation_capacity')
     for dt, label in ((NONE, 'dtype=None'), (S('dtype'), 'dtype given')):
         facts = {nf.attr(gain, 'ndim').single_atom(): C(1)}
-        _, paths, _ = analyse(repo, fa, facts=facts, config={'dtype': dt, 'warn_saturate': TRUE})
+        _, paths, _ = analyse(repo, fa, facts=facts, config={'dtype': dt, 'warn_saturate': TRUE}, literal_tables=True)
         rets = [p for p in returns(paths)]
         sat = [p for p in rets if any(c == cap and pol for c, pol, _ in p.conds)]
         if dt is not NONE:
@@ -206,6 +206,13 @@ def run(chk, repo, tier):
                 base, key = a[2][0], a[2][1]
                 ba = base.single_atom()
                 fl = ba is not None and is_app(ba, 'floor') and key == nf.app('lt', base, C(0))
+            elif a is not None and is_app(a, 'where') and len(a[2]) == 3 and isinstance(a[2][1], Poly) and a[2][1].is_zero() \
+                    and isinstance(a[2][2], Poly):
+                # np.where(x < 0, 0, x): the same clamp, written as a selection
+                base = a[2][2]
+                ba = base.single_atom()
+                clamp = True
+                fl = ba is not None and is_app(ba, 'floor') and a[2][0] == nf.app('lt', base, C(0))
             tagp = 'saturated frame' if any(pol and is_app(c.single_atom() or ('x',), 'any') for c, pol, _ in p.conds
                                             if isinstance(c, Poly)) else 'unsaturated frame'
             chk.ob('C16-h', 'D-order', fa.key, f'floor -> clamp at zero -> cast [{label}, {tagp}]',
@@ -229,7 +236,7 @@ def run(chk, repo, tier):
             chk.ob('C16-h', 'D-order', fa.key, f'warning predicate is the clip predicate [{label}, {tagp}]',
                    len(warned) == 1, '', fa.loc(p.node))
         # the warning is guarded by warn_saturate
-        _, paths2, _ = analyse(repo, fa, facts=facts, config={'dtype': dt, 'warn_saturate': FALSE})
+        _, paths2, _ = analyse(repo, fa, facts=facts, config={'dtype': dt, 'warn_saturate': FALSE}, literal_tables=True)
         quiet = all(not any(e.kind == 'call' and e.data.get('callee') == 'ext:warnings.warn' for e in p.events)
                     for p in returns(paths2))
         loud = any(any(e.kind == 'call' and e.data.get('callee') == 'ext:warnings.warn' for e in p.events) for p in sat)
